@@ -21,7 +21,7 @@ def _rand_args(lib, lem, rng):
         if t == 'int2':
             args[p] = gm if needs_map else (gs if needs_tab else gens.bits(rng, 2 * N, 2 * N))
         elif t == 'int1':
-            args[p] = gens.bits(rng, 2 * N)
+            args[p] = 2 * gens.bits(rng, 2 * N) if p in ('pm', 'ps') else gens.bits(rng, 2 * N)
         elif t == 'int':
             if p in ('N',):
                 args[p] = N
